@@ -114,6 +114,30 @@ DISCHARGE = [
 ]
 
 
+def takes_exactly_n(f, name):
+    """function `name` returns Ok(&buf[i..i + n]) (n its second parameter): a slice of exactly n bytes"""
+    b = f.bodies.get(name)
+    if b is None or b.arg_count < 2:
+        return False
+    n = ("param", b.param_name(2))
+    oks = [a for a in phi_alts(b.local_term(0)) if a[0] == "agg" and a[3] == "Ok"]
+    if not oks:
+        return False
+    for a in oks:
+        v = peel(a[5][0])
+        if not (is_call(v, "core::ops::Index::index") and len(v[3]) == 2):
+            return False
+        rng = peel(v[3][1])
+        if not (rng[0] == "agg" and (rng[2] or "").endswith("ops::Range") and len(rng[5]) == 2):
+            return False
+        st, en = peel(rng[5][0]), peel(rng[5][1])
+        if en[0] == "field" and en[1][0] == "bin":
+            en = en[1]
+        if not (en[0] == "bin" and en[1].startswith("Add") and {show(peel(en[2])), show(peel(en[3]))} == {show(st), show(n)}):
+            return False
+    return True
+
+
 def auto_discharge(f, s):
     """(ok, how) for sites that need no table entry"""
     b, bb = s["body"], s["bb"]
@@ -137,6 +161,22 @@ def auto_discharge(f, s):
         if cond[0] == "bin" and cond[1] == "Eq" and cond[2][0] == "const" and cond[3][0] == "const" and t["expected"] is False \
                 and cond[2][2] != cond[3][2]:
             return True, "constant divisor"
+        # x + 1 after x was validated as an index (x < len): no overflow; a - b under b <= a: no underflow
+        ar = None
+        for x in walk(cond):
+            if x[0] == "bin" and x[1] in ("AddWithOverflow", "SubWithOverflow"):
+                ar = x
+        if ar is not None:
+            fs = panics.facts(b, bb)
+            lhs, rhs = show(peel(ar[2])), show(peel(ar[3]))
+            if ar[1] == "AddWithOverflow" and peel(ar[3])[0] == "const" and peel(ar[3])[2] == 1:
+                for (op, l, r, _) in fs:
+                    if op == "lt" and l == lhs:
+                        return True, "%s + 1 where %s < %s holds" % (lhs, l, r)
+            if ar[1] == "SubWithOverflow":
+                for (op, l, r, _) in fs:
+                    if l == rhs and r == lhs:
+                        return True, "%s - %s where %s %s %s holds" % (lhs, rhs, l, "<" if op == "lt" else "<=", r)
         return False, ""
     c = b.calls[bb]
     if s["what"] == "unwrap":
@@ -152,6 +192,18 @@ def auto_discharge(f, s):
                     return True, "conversion of the %s-byte slice returned by try_take_n(%s) to %s" % (n[2], n[2], want)
         if is_call(a, "NonZero::<T>::new") and a[3] and a[3][0][0] == "const" and a[3][0][2] not in (0, None):
             return True, "NonZero::new of a non-zero constant"
+    if s["what"] == "copy_from_slice" and len(c.args) == 2:
+        # [u8; N].copy_from_slice(take_n(N)?): both lengths are the same constant
+        dst = peel(b.operand_term(c.args[0]))
+        while isinstance(dst, tuple) and dst[0] == "cast":
+            dst = peel(dst[2])
+        n_dst = dst[2] if isinstance(dst, tuple) and dst[0] == "repeat" else (len(dst[5]) if isinstance(dst, tuple) and dst[0] == "agg" and dst[1] == "array" else None)
+        src = peel(b.operand_term(c.args[1]))
+        if isinstance(src, tuple) and src[0] == "ok":
+            inner = peel(src[1])
+            if is_call(inner, "try_take_n") and len(inner[3]) == 2 and inner[3][1][0] == "const" and takes_exactly_n(f, inner[2]):
+                if n_dst is not None and n_dst == inner[3][1][2]:
+                    return True, "copy of the %d-byte slice returned by try_take_n(%d) into a %d-byte array" % (n_dst, n_dst, n_dst)
     if s["what"] in ("index", "index_mut"):
         rng = peel(b.operand_term(c.args[1]))
         if rng[0] == "agg" and (rng[2] or "").endswith("RangeFull"):
@@ -197,6 +249,38 @@ def rule_panic(R):
     return sites, special
 
 
+def _passed_on_variants(f, code, p):
+    """variants a non-literal Progress value `p` can have where it is returned as Ok(p) (path-sensitive)"""
+    from .. import paths
+    prog = [n for n in f.adts if n.endswith("Progress")]
+    allv = [v["name"] for v in f.adts[prog[0]]["variants"]] if len(prog) == 1 else None
+    if allv is None:
+        return {"?" + show(p)[:30]}
+    sites = []
+    for bb, j, s in code.assigns():
+        if bb in code.reachable and s["dst"]["l"] == 0 and not s["dst"]["proj"]:
+            t = peel(code.rvalue_term(s["rv"]))
+            if t[0] == "agg" and t[3] == "Ok" and t[5] and peel(t[5][0]) == p:
+                sites.append(bb)
+    out = set()
+    if not sites:
+        return {"?" + show(p)[:30]}
+    leaves = paths.explore(code, 0, lambda r: peel(r) == p, lambda b, bb: False, stop_pred=lambda b, bb: bb in sites, max_paths=20000)
+    for l in leaves:
+        if l["kind"] == "limit":
+            return {"?path-limit"}
+        if l["kind"] != "stop":
+            continue
+        c = l["cons"].get(())
+        if isinstance(c, str):
+            out.add(c)
+        elif isinstance(c, tuple):
+            out |= set(allv) - set(c[1])
+        else:
+            out |= set(allv)
+    return out
+
+
 def rule_unreachable(R):
     f = R.f
     cm = roles.conn_methods(f)
@@ -210,7 +294,8 @@ def rule_unreachable(R):
             if p[0] == "agg" and (p[2] or "").endswith("Progress"):
                 vals.add(p[3])
             else:
-                vals.add("?" + show(p)[:30])
+                # a Progress value handed on from elsewhere: on every path to the return it was tested not to be Idle
+                vals |= _passed_on_variants(f, wcode, p)
     R.ob("unreachable/poll-recv", vals == {"Inbound", "Advanced"},
          "the unreachable!() for Progress::Idle in poll/recv is dead: wait_for_progress only ever returns Inbound or Advanced "
          "(returns %s)" % sorted(vals), where=wb.span)
@@ -271,6 +356,69 @@ def rule_unreachable(R):
          "PUBLISH by take_packet, and no transport access can touch the buffer between that and the re-decode", where=db.span)
 
 
+def flag_requirement(vs, start, disp_bb):
+    """what the decoder demands of the fixed-header flag nibble on the way from the per-type arm `start` to the
+    dispatch match: 'any', 'none', the required value, or None when the condition is not of the form
+    `(header & 15) == c`.  Path-sensitive: works for a verdict kept in a local, returned by a helper, or tested in place."""
+    leaves = paths.explore(vs, start, lambda t: False, lambda b, x: False, stop_pred=lambda b, x: x == disp_bb, max_paths=2000)
+    acc, rej = [], []
+    for lf in leaves:
+        if lf["kind"] == "limit":
+            return None
+        conds = set()
+        p = lf["path"]
+        for i in range(len(p) - 1):
+            sb = p[i]
+            if sb not in vs.switches:
+                continue
+            on = vs.switches[sb]["on"]
+            pl = on.get("move") or on.get("copy")
+            if pl is None or pl["proj"] or pl["ty"] != "bool":
+                continue
+            si = vs.switch_info(sb)
+            val = paths.value_on_path(vs, p[:i + 1], pl["l"])
+            if val is None:
+                continue
+            cc = panics.canon_cmp(val)
+            if cc is None:
+                continue
+            taken = None
+            for lab in (True, False):
+                if si["edges"].get(lab) == p[i + 1]:
+                    taken = lab
+            if taken is None:
+                continue
+            if not taken:
+                cc = panics.negate(cc)
+            if "BitAnd" in cc[1] + cc[2] and "15" in cc[1] + cc[2]:
+                conds.add(cc)
+        (acc if lf["kind"] == "stop" else rej).append(conds)
+    if not acc:
+        return "none"
+    if all(not c for c in acc) and not any(c for c in rej):
+        return "any"
+    vals = set()
+    for c in acc:
+        if len(c) != 1:
+            return None
+        (op, a, b2) = list(c)[0]
+        if op != "==":
+            return None
+        num = [x for x in (a, b2) if re.match(r"^\d+_u8$", x)]
+        if len(num) != 1:
+            return None
+        vals.add(int(num[0].split("_")[0]))
+    if len(vals) != 1:
+        return None
+    want = list(vals)[0]
+    # every rejecting path that depends on the flags rejects exactly the complement
+    for c in rej:
+        for (op, a, b2) in c:
+            if op != "!=" or not any(x == "%d_u8" % want for x in (a, b2)):
+                return None
+    return want
+
+
 def rule_tables(R):
     f = R.f
     vs = f.bodies.get("<de::received_packet::ControlPacketVisitor as packets::_::_serde::de::Visitor<'de>>::visit_seq")
@@ -282,6 +430,8 @@ def rule_tables(R):
     if len(sws) != 2:
         raise AnchorLost("visit_seq:type-matches", "expected the flag match and the dispatch match, found %d" % len(sws))
     flag_sw, disp_sw = sws
+    if vs.dominates(disp_sw["bb"], flag_sw["bb"]) and not vs.dominates(flag_sw["bb"], disp_sw["bb"]):
+        flag_sw, disp_sw = disp_sw, flag_sw  # block numbers do not follow program order in an inlined helper
     variants = [v["name"] for v in f.adts[MT]["variants"]]
     # flags: which local receives the verdict
     def arm_blocks(si, v):
@@ -292,21 +442,7 @@ def rule_tables(R):
         return tgt, vs.reach([tgt], avoid=[disp_sw["bb"]]) - vs.reach(others, avoid=[disp_sw["bb"]])
     for v in variants:
         tgt, arm = arm_blocks(flag_sw, v)
-        val = None
-        for bb in sorted(arm):
-            for s in vs.blocks[bb]["stmts"]:
-                if s["k"] == "assign" and not s["dst"]["proj"] and vs.locals[s["dst"]["l"]]["ty"] == "bool" and vs.locals[s["dst"]["l"]]["name"]:
-                    val = vs.rvalue_term(s["rv"])
-        got = None
-        if val is not None:
-            v2 = peel(val)
-            if v2[0] == "const":
-                got = "any" if v2[2] == 1 else "none"
-            elif v2[0] == "bin" and v2[1] == "Eq":
-                c = [x for x in (v2[2], v2[3]) if x[0] == "const"]
-                other = [x for x in (v2[2], v2[3]) if x[0] != "const"]
-                if c and other and peel(other[0])[0] == "bin" and peel(other[0])[1] == "BitAnd" and any(y[0] == "const" and y[2] == 15 for y in walk(other[0])):
-                    got = c[0][2]
+        got = flag_requirement(vs, tgt, disp_sw["bb"]) if tgt is not None else None
         if v in oracle.SERVER_SENT:
             want = "any" if v == "Publish" else list(oracle.legal_flags(v))[0]
             R.ob("tables/flags/%s" % v, got == want,
